@@ -1,0 +1,270 @@
+//! Verification-only (`--cfg libp2p_verif`) hooks for the k-bucket routing table.
+//!
+//! * [`Instant`]: drop-in for `web_time::Instant` inside `kbucket.rs` / `bucket.rs` with a
+//!   thread-local controllable clock (frozen base + virtual offset).
+//! * [`Table`]: forwarding facade over the crate-private `KBucketsTable` / `Entry` API.
+//!
+//! Nothing in here re-implements routing-table logic; every method forwards to the real code.
+
+use std::{cell::Cell, num::NonZeroUsize, ops::Add, time::Duration};
+
+use super::{
+    AppliedPending, Distance, Entry, InsertResult, KBucketConfig, KBucketsTable, KeyBytes,
+    NodeStatus,
+};
+
+thread_local! {
+    static FROZEN: Cell<Option<web_time::Instant>> = const { Cell::new(None) };
+    static OFFSET: Cell<Duration> = const { Cell::new(Duration::ZERO) };
+}
+
+/// Clock control (per thread).
+pub mod clock {
+    use super::*;
+
+    /// Freezes the real component of the clock at the current instant and resets the offset.
+    pub fn freeze() {
+        FROZEN.with(|f| f.set(Some(web_time::Instant::now())));
+        OFFSET.with(|o| o.set(Duration::ZERO));
+    }
+
+    /// Returns to the real clock (offset reset).
+    pub fn unfreeze() {
+        FROZEN.with(|f| f.set(None));
+        OFFSET.with(|o| o.set(Duration::ZERO));
+    }
+
+    /// Advances the virtual offset.
+    pub fn advance(d: Duration) {
+        OFFSET.with(|o| o.set(o.get() + d));
+    }
+
+    /// The current virtual offset.
+    pub fn offset() -> Duration {
+        OFFSET.with(|o| o.get())
+    }
+}
+
+/// `web_time::Instant` plus the thread-local virtual offset.
+#[derive(Clone, Copy, Debug, PartialEq, Eq, PartialOrd, Ord)]
+pub struct Instant(web_time::Instant);
+
+impl Instant {
+    pub fn now() -> Self {
+        let base = FROZEN.with(|f| f.get()).unwrap_or_else(web_time::Instant::now);
+        Instant(base + OFFSET.with(|o| o.get()))
+    }
+
+    pub fn checked_sub(&self, d: Duration) -> Option<Self> {
+        self.0.checked_sub(d).map(Instant)
+    }
+}
+
+impl Add<Duration> for Instant {
+    type Output = Instant;
+
+    fn add(self, d: Duration) -> Instant {
+        Instant(self.0 + d)
+    }
+}
+
+/// What `KBucketsTable::entry` reports for a key.
+#[derive(Clone, Copy, Debug, PartialEq, Eq)]
+pub enum EntryKind {
+    /// The key is the local key (`entry` returned `None`).
+    SelfEntry,
+    Present(NodeStatus),
+    Pending(NodeStatus),
+    Absent,
+}
+
+/// Result of [`Table::insert`].
+#[derive(Clone, Debug, PartialEq, Eq)]
+pub enum InsertOutcome<TKey> {
+    /// `entry` did not return `Entry::Absent`; nothing was attempted.
+    NotAbsent(EntryKind),
+    Inserted,
+    Pending { disconnected: TKey },
+    Full,
+}
+
+/// One bucket as seen through `KBucket::iter` / `KBucket::pending`.
+#[derive(Clone, Debug)]
+pub struct BucketSnap<TKey> {
+    pub index: usize,
+    /// `KBucketRef::range()` (only filled by [`Table::snapshot`]).
+    pub range: Option<(Distance, Distance)>,
+    pub nodes: Vec<(TKey, u32, NodeStatus)>,
+    /// Pending node, if any: key, value, status, `is_ready()` (only filled by [`Table::peek`]).
+    pub pending: Option<(TKey, u32, NodeStatus, bool)>,
+    /// `KBucketRef::has_pending()` (only filled by [`Table::snapshot`]).
+    pub has_pending: bool,
+}
+
+/// An applied pending entry: `(inserted, evicted)`.
+pub type Applied<TKey> = ((TKey, u32), Option<(TKey, u32)>);
+
+/// Facade over `KBucketsTable<TKey, u32>`.
+pub struct Table<TKey> {
+    inner: KBucketsTable<TKey, u32>,
+}
+
+impl<TKey> Table<TKey>
+where
+    TKey: Clone + AsRef<KeyBytes>,
+{
+    pub fn new(local_key: TKey, bucket_size: NonZeroUsize, pending_timeout: Duration) -> Self {
+        let mut config = KBucketConfig::default();
+        config.set_bucket_size(bucket_size);
+        config.set_pending_timeout(pending_timeout);
+        Table {
+            inner: KBucketsTable::new(local_key, config),
+        }
+    }
+
+    pub fn local_key(&self) -> &TKey {
+        self.inner.local_key()
+    }
+
+    /// `KBucketsTable::entry(key)` classified.
+    pub fn entry_kind(&mut self, key: &TKey) -> EntryKind {
+        match self.inner.entry(key) {
+            None => EntryKind::SelfEntry,
+            Some(Entry::Present(_, s)) => EntryKind::Present(s),
+            Some(Entry::Pending(_, s)) => EntryKind::Pending(s),
+            Some(Entry::Absent(_)) => EntryKind::Absent,
+        }
+    }
+
+    /// `entry(key)` then `AbsentEntry::insert(value, status)`.
+    pub fn insert(&mut self, key: &TKey, value: u32, status: NodeStatus) -> InsertOutcome<TKey> {
+        match self.inner.entry(key) {
+            None => InsertOutcome::NotAbsent(EntryKind::SelfEntry),
+            Some(Entry::Present(_, s)) => InsertOutcome::NotAbsent(EntryKind::Present(s)),
+            Some(Entry::Pending(_, s)) => InsertOutcome::NotAbsent(EntryKind::Pending(s)),
+            Some(Entry::Absent(e)) => match e.insert(value, status) {
+                InsertResult::Inserted => InsertOutcome::Inserted,
+                InsertResult::Pending { disconnected } => InsertOutcome::Pending { disconnected },
+                InsertResult::Full => InsertOutcome::Full,
+            },
+        }
+    }
+
+    /// `entry(key)` then `PresentEntry::update` / `PendingEntry::update`. Returns what the entry
+    /// was before the update.
+    pub fn update(&mut self, key: &TKey, status: NodeStatus) -> EntryKind {
+        match self.inner.entry(key) {
+            None => EntryKind::SelfEntry,
+            Some(Entry::Present(mut e, s)) => {
+                e.update(status);
+                EntryKind::Present(s)
+            }
+            Some(Entry::Pending(e, s)) => {
+                let _ = e.update(status);
+                EntryKind::Pending(s)
+            }
+            Some(Entry::Absent(_)) => EntryKind::Absent,
+        }
+    }
+
+    /// `entry(key)` then `PresentEntry::remove` / `PendingEntry::remove`. Returns what the entry
+    /// was and the removed node.
+    pub fn remove(&mut self, key: &TKey) -> (EntryKind, Option<(TKey, u32, NodeStatus)>) {
+        match self.inner.entry(key) {
+            None => (EntryKind::SelfEntry, None),
+            Some(Entry::Present(e, s)) => {
+                let v = e.remove();
+                (
+                    EntryKind::Present(s),
+                    Some((v.node.key, v.node.value, v.status)),
+                )
+            }
+            Some(Entry::Pending(e, s)) => {
+                let v = e.remove();
+                (
+                    EntryKind::Pending(s),
+                    Some((v.node.key, v.node.value, v.status)),
+                )
+            }
+            Some(Entry::Absent(_)) => (EntryKind::Absent, None),
+        }
+    }
+
+    /// `KBucketsTable::bucket(key)`: index and range of the bucket responsible for `key`.
+    pub fn bucket_of<K: AsRef<KeyBytes>>(&mut self, key: &K) -> Option<(usize, (Distance, Distance))> {
+        self.inner.bucket(key).map(|b| (b.index.get(), b.range()))
+    }
+
+    /// Non-mutating view of all non-empty buckets (does *not* apply pending entries).
+    pub fn peek(&self) -> Vec<BucketSnap<TKey>> {
+        self.inner
+            .buckets
+            .iter()
+            .enumerate()
+            .filter(|(_, b)| b.num_entries() > 0 || b.pending().is_some())
+            .map(|(index, b)| BucketSnap {
+                index,
+                range: None,
+                nodes: b
+                    .iter()
+                    .map(|(n, s)| (n.key.clone(), n.value, s))
+                    .collect(),
+                pending: b.pending().cloned().map(|p| {
+                    let (status, ready) = (p.status(), p.is_ready());
+                    let node = p.into_node();
+                    (node.key, node.value, status, ready)
+                }),
+                has_pending: false,
+            })
+            .collect()
+    }
+
+    /// View through `KBucketsTable::iter` (the path behind `Behaviour::kbuckets`; applies
+    /// pending entries); non-empty buckets only.
+    pub fn snapshot(&mut self) -> Vec<BucketSnap<TKey>> {
+        self.inner
+            .iter()
+            .filter(|b| !b.is_empty() || b.has_pending())
+            .map(|b| BucketSnap {
+                index: b.index.get(),
+                range: Some(b.range()),
+                nodes: b
+                    .iter()
+                    .map(|e| (e.node.key.clone(), *e.node.value, e.status))
+                    .collect(),
+                pending: None,
+                has_pending: b.has_pending(),
+            })
+            .collect()
+    }
+
+    /// `KBucketsTable::closest_keys(target)` collected.
+    pub fn closest_keys<T: AsRef<KeyBytes>>(&mut self, target: &T) -> Vec<TKey> {
+        self.inner.closest_keys(target).collect()
+    }
+
+    /// `KBucketsTable::closest(target)` collected.
+    pub fn closest<T: Clone + AsRef<KeyBytes>>(&mut self, target: &T) -> Vec<(TKey, u32, NodeStatus)> {
+        self.inner
+            .closest(target)
+            .map(|e| (e.node.key, e.node.value, e.status))
+            .collect()
+    }
+
+    /// `KBucketsTable::count_nodes_between(target)`.
+    pub fn count_nodes_between<T: AsRef<KeyBytes>>(&mut self, target: &T) -> usize {
+        self.inner.count_nodes_between(target)
+    }
+
+    /// `KBucketsTable::take_applied_pending()`.
+    pub fn take_applied_pending(&mut self) -> Option<Applied<TKey>> {
+        self.inner
+            .take_applied_pending()
+            .map(|AppliedPending { inserted, evicted }| {
+                (
+                    (inserted.key, inserted.value),
+                    evicted.map(|n| (n.key, n.value)),
+                )
+            })
+    }
+}
